@@ -1067,7 +1067,7 @@ class TorchBackendProvider(BackendProvider):
             method = {'+': 'sum', '*': 'prod', '|': 'amax', '&': 'amin'}.get(op)
             if method is None:
                 return None
-            return f'({arg_src}).{method}(0)'
+            return f'_kg_list({arg_src}).{method}(0)'
 
         if node_type == 'scan':
             op, arg = ir[1], ir[2]
@@ -1083,7 +1083,7 @@ class TorchBackendProvider(BackendProvider):
             method = methods.get(op)
             if method is None:
                 return None
-            return f'({arg_src}).{method}'
+            return f'_kg_list({arg_src}).{method}'
 
         return None
 
